@@ -16,6 +16,9 @@ executes requests on the real code is exploration (see checks/C14.py), not proof
 -/
 namespace Discret.Adm
 
+/-- the theorems stated for `Defects.none` are about the code as implemented (after e10cc1c and 8e31124) -/
+theorem C14_code_is_intended : Defects.asImplemented = Defects.none := rfl
+
 /-! ### (1) the admission matrix -/
 
 theorem allPV_complete : ∀ pv : PV, pv ∈ allPV
@@ -44,16 +47,16 @@ def badCells (d : Defects) : List (Src × FT × Bool × PV) :=
     corpus/C14/json_null.ops). Exactly two cells are bad: a null parameter and the literal `null` on a
     nullable `Json` field are admitted and `value.as_string().unwrap()` panics the reader thread. -/
 theorem C14_breaks_jsonNullPanics :
-    badCells Defects.asImplemented = [(.var, .json, true, .null), (.lit, .json, true, .null)] ∧
+    badCells Defects.beforeFixes = [(.var, .json, true, .null), (.lit, .json, true, .null)] ∧
     badCells Defects.none = [] := by decide
 
-/-- **C14_partial** (code as implemented). Outside the two cells above an admitted value never panics. -/
+/-- **C14_partial** (the code before the fix). Outside the two cells above an admitted value never panics. -/
 theorem C14_partial (src : Src) (ft : FT) (nullable : Bool) (pv : PV)
     (_h : admission src ft nullable pv = .admitted) (hg : ¬ (ft = .json ∧ pv = .null)) :
-    bind Defects.asImplemented ft pv ≠ .panic := by
+    bind Defects.beforeFixes ft pv ≠ .panic := by
   have key : ∀ ft ∈ allFT, ∀ pv ∈ allPV, ¬ (ft = .json ∧ pv = .null) →
       (admission .var ft true pv = .admitted ∨ admission .lit ft true pv = .admitted ∨ True) →
-      bind Defects.asImplemented ft pv ≠ .panic ∨ ¬ (admission src ft nullable pv = .admitted) := by
+      bind Defects.beforeFixes ft pv ≠ .panic ∨ ¬ (admission src ft nullable pv = .admitted) := by
     cases src <;> cases nullable <;> decide
   rcases key ft (allFT_complete ft) pv (allPV_complete pv) hg (Or.inr (Or.inr trivial)) with h | h
   · exact h
@@ -73,11 +76,11 @@ theorem C14_key_import_total (first : Option Nat) (len : Nat) :
 
 /-- **C14_breaks_emptyKeyPanics** (security.rs:78-83, candidate #7, confirmed: corpus/C14/empty_key.ops):
     the empty byte string panics; every other input is answered (`C14_key_partial`). -/
-theorem C14_breaks_emptyKeyPanics : importVerifyingKey Defects.asImplemented none 0 = .panic := by decide
+theorem C14_breaks_emptyKeyPanics : importVerifyingKey Defects.beforeFixes none 0 = .panic := by decide
 
-theorem C14_key_partial (b len : Nat) : importVerifyingKey Defects.asImplemented (some b) len ≠ .panic := by
+theorem C14_key_partial (b len : Nat) : importVerifyingKey Defects.beforeFixes (some b) len ≠ .panic := by
   unfold importVerifyingKey
-  simp only [Defects.asImplemented, if_true]
+  simp only [Defects.beforeFixes, if_true]
   by_cases h1 : (len != 33) = true <;> by_cases h2 : (b != keyTypeEd25519) = true <;> simp [h1, h2]
 
 /-- the signature import checks the length first: it has no panicking outcome at all -/
